@@ -26,6 +26,7 @@ BUDGET_S = {"quick": 100, "thorough": 1500}
 
 P1 = [[0.0, 1.0], [2.0, 3.0], [5.0, 0.5]]
 P2 = [[0.0, 0.0], [10.0, 5.0], [40.0, 6.0]]
+BP2 = [[0.0, 0.5], [10.0, 4.0], [40.0, 7.0]]      # base_points of manager smB: inherited by every scenario of smB that does not override p2
 BASE = dict(constants=dict(c1=2.0, c2=1.0, c3=0.25), points=dict(p1=P1, p2=P2), run=(0.0, 5.0, 1.0))
 EQS = ["s1", "s2", "f1", "b1", "c1", "c2", "c3", "total"]
 ALPHA = ["reg_const", "reg_pts", "run_A0", "sess_A0_const", "sess_B1_step_pts", "sess_A1_step_const", "reset_A0",
@@ -104,6 +105,7 @@ class World:
             spec = {"model": self.base, "scenarios": copy.deepcopy(scen)}
             if bc:
                 spec["base_constants"] = dict(bc)
+                spec["base_points"] = {"p2": copy.deepcopy(BP2)}
             self.b.register_scenario_manager({mgr: spec})
             for sn, st in scen.items():
                 rec = copy.deepcopy(st)
@@ -111,6 +113,7 @@ class World:
                     rec.setdefault("constants", {})
                     for k, v in bc.items():
                         rec["constants"].setdefault(k, v)
+                    rec.setdefault("points", {}).setdefault("p2", copy.deepcopy(BP2))
                 self.settings[(mgr, sn)] = rec
         b = self.b
         self.app = BptkServer(__name__, lambda: b)
@@ -145,7 +148,7 @@ class World:
             self.touched.append("constants")
         elif name == "reg_pts":
             b.register_scenarios({"p": {"points": {"p1": pts}}}, "smB")
-            self.settings[("smB", "p")] = {"constants": {"c3": 0.5}, "points": {"p1": pts}}
+            self.settings[("smB", "p")] = {"constants": {"c3": 0.5}, "points": {"p1": pts, "p2": copy.deepcopy(BP2)}}
             self.tainted.discard(("smB", "p"))
             self.touched.append("points")
         elif name == "run_A0":
@@ -200,7 +203,8 @@ class World:
             b.run_step()
             self.touched.append("points")
         elif name == "rest_A0_runspecs":
-            st = {"smA": {"s0": {"runspecs": {"stoptime": 3.0}}}}
+            # incl. a finer dt / a start time between the old grid points for a scenario that has already been run on the coarser grid
+            st = {"smA": {"s0": {"runspecs": r.choice([{"stoptime": 3.0}, {"dt": 0.5}, {"dt": 0.25, "stoptime": 2.0}, {"starttime": 0.5, "dt": 0.5}, {"dt": 0.125, "stoptime": 1.0}])}}}
             resp = self.client.post("/run", json={"scenario_managers": ["smA"], "scenarios": ["s0"], "equations": ["s1"], "settings": copy.deepcopy(st)})
             self.counters["rest_requests"] = self.counters.get("rest_requests", 0) + 1
             if resp.status_code != 200:
